@@ -326,7 +326,10 @@ def compare_def(R, name, p, res, want):
                     ok, why = False, f"{g!r} vs {w!r}"
                     break
         R.check(name, ok, why[:500] + "\nlowered:\n" + TL.show(got) + "\nPython:\n" + TL.show(want),
-                replay=dict(kind="src", src="log = []\ndef d(n):\n    log.append(('dec', n))\n    def w(f):\n        log.append(('apply', n))\n        return f\n    return w\ndef v(n):\n    log.append(('default', n))\n    return n\n@d(1)\n@d(2)\n@d(3)\ndef f(a=v(1), b=v(2), *, c=v(3), e, g=v(4)):\n    return a\nr = f(e=0)\n", expect="same-globals"))
+                replay=dict(kind="src", src="log = []\ndef d(n):\n    log.append(('dec', n))\n    def w(f):\n        log.append(('apply', n))\n        return f\n    return w\ndef v(n):\n    log.append(('default', n))\n    return n\n@d(1)\n@d(2)\n@d(3)\ndef f(a=v(1), b=v(2), *, c=v(3), e, g=v(4)):\n    return a\nr = f(e=0)\n"
+                                             "class K:\n    base = 5\n    def m(self, val=base, *, kw=base + 1):\n        return val, kw\nr2 = K().m()\n"
+                                             "def outer():\n    x = 1\n    def sib():\n        return x\n    def h(a=x, *, b=x + 1):\n        return a, b\n    def k(x=x):\n        def inner():\n            return x\n        return inner()\n    return h(), k(), sib()\nr3 = outer()\n",
+                         expect="same-globals"))
         return ev
     finally:
         sym.set_ctx(None)
